@@ -466,3 +466,38 @@ prop("C18",
      assumptions=["numpy: tobytes()/data.tobytes() in C order depend on the "
                   "logical contents only"],
      unverified_surroundings=["pytools KeyBuilder, loopy's LoopyKeyBuilder"])
+
+prop("C16",
+     level="proof",
+     level_text=(
+         "Deductive proof, for affine shape components built by the real "
+         "operator overloads with symbolic integer coefficients over 1..3 "
+         "size parameters, that are_shape_components_equal decides equality "
+         "for all non-negative parameter values (both directions), that "
+         "_is_non_negative/_is_non_positive are sound and complete, that "
+         "stack, broadcasting, where, einsum and call-argument checking "
+         "accept exactly when the axis lengths are equal for all sizes (or "
+         "literally one, for broadcasting), that the inferred shapes "
+         "evaluate to NumPy's at every valuation, and that builders and "
+         "lowering stay correct (values, bounds, shapes) when axis lengths "
+         "are symbolic."),
+     level_note=(
+         "islpy is replaced by its assumed contract (pyvc/islmodel.py, "
+         "affine forms as coefficient vectors; the one closed form it uses is "
+         "proved as a lemma). 'One compiled kernel serves every size' -- the "
+         "execution of loopy-generated code -- is not decided; the proof "
+         "ends at the IndexLambda / shape level."),
+     technique="contract-based deductive verification: VCs generated from "
+               "the real source by symbolic interpretation, z3",
+     design_ref="DESIGN.md §6 C16",
+     explanation="see contracts/c16_symshapes.py",
+     structural_bound="tree forms sum/rev/nested/sub/neg/partial/bare/int of "
+                      "affine expressions over <= 3 parameters; coefficients "
+                      "unbounded (symbolic); operand ranks <= 3",
+     trusted_base=["islpy (assumed contract: pyvc/islmodel.py)",
+                   "pymbolic EvaluationMapper / substitute"],
+     assumptions=["shape components are affine in the size parameters "
+                  "(pytato's documented requirement)"],
+     unverified_surroundings=["loopy code generation and execution for "
+                              "parametric sizes (shape_to_scalar_expression, "
+                              "kernel value arguments)"])
